@@ -352,7 +352,7 @@ class SimulatorBase(
                         qubits=[q],
                         classical_data=classical_data,
                     )
-                    initial_state = int(initial_state / q.dimension)
+                    initial_state = initial_state // q.dimension
             else:
                 args = self._create_partial_simulation_state(
                     initial_state=initial_state, qubits=qubits, classical_data=classical_data
